@@ -75,7 +75,7 @@ def n_cases(tier):
 
 
 # ---- declarations ---------------------------------------------------------------------------------
-def declare(base, d, flags, leaf="int", mutual=False):
+def declare(base, d, flags, leaf="int", mutual=False, opts_on_base=False):
     """-> (top class, [classes]); classes refer to each other by name through the generated module"""
     import utype
     from utype import Field, Options
@@ -116,9 +116,16 @@ def declare(base, d, flags, leaf="int", mutual=False):
                 setattr(GENERATED, c.__name__, c)
             ann["disc"] = typing.Union[lf, br, None]
             ns["disc"] = Field(discriminator="kind", default=None)
-        cls = type(basecls)(name, (basecls,), ns)
+        parents = (basecls,)
+        if opts_on_base and not mutual:
+            # the options (the depth limit among them) are declared on a base class only; the recursive class inherits them
+            root = type(basecls)(name + "Root", (basecls,), {"__module__": "vmon_generated", "__qualname__": name + "Root", "__options__": ns.pop("__options__")})
+            parents = (root,)
+        cls = type(basecls)(name, parents, ns)
         setattr(GENERATED, name, cls)
         made.append(cls)
+        if parents[0] is not basecls:
+            made.append(parents[0])
         if not mutual:
             made += [br, lf]
     return made[0], made
@@ -198,6 +205,7 @@ def make_case(i, rng, tier):
                 # one nested level written as JSON text instead of a mapping (still one level of the input)
                 "text_level": rng.randint(1, max(1, k - 1)) if (k > 1 and rng.random() < 0.25) else None,
                 # the whole chain sits in a list field of an outer data class (one more level) whose element rule carries options of its own
+                "opts_on_base": rng.random() < 0.15,
                 "boxed": rng.choice(["rule-with-options", "rule-with-options", "array-subclass-with-options", "plain-list"]) if rng.random() < 0.15 else None}
     j = (i - N_EXACT[tier]) % 216
     FL = [{}, {"no_data_loss": True}, {"no_explicit_cast": True}, {"no_data_loss": True, "no_explicit_cast": True}]
@@ -232,7 +240,10 @@ def run_case(case, ctx):
     try:
         deliver = case.get("deliver", "class")
         cflags = {"collect_errors": True} if case.get("collect") else {}
-        top, classes = declare(case["base"], d if deliver == "class" else None, cflags, mutual=case["mutual"])
+        top, classes = declare(case["base"], d if deliver == "class" else None, cflags, mutual=case["mutual"],
+                               opts_on_base=bool(case.get("opts_on_base")) and deliver == "class")
+        if case.get("opts_on_base") and deliver == "class" and not case["mutual"]:
+            ctx.count("limit_declared_on_a_base_class_only")
     except Exception as e:
         ctx.count("declaration_rejected:" + type(e).__name__)
         return
@@ -286,7 +297,7 @@ def run_case(case, ctx):
         ctx.count("limit_delivered_by:" + deliver)
         links = tuple(p[0] for p in path)
         poss = tuple(str(p[1]) for p in path)
-        sig = (case["base"], case["mutual"], links, poss, d, k, cyc, deliver, bool(cflags), tl, boxed)
+        sig = (case["base"], case["mutual"], links, poss, d, k, cyc, deliver, bool(cflags), tl, boxed, bool(case.get("opts_on_base")))
         wit = {"base": case["base"], "mutual": case["mutual"], "max_depth": d, "collect_errors": bool(cflags), "limit_given_by": "class Options" if deliver == "class" else "__from__(options=Options(max_depth=d, override=True))", "input_depth": "cyclic" if cyc else k,
                "path": [f"{l}[{p}]" for l, p in path], "outcome": repr(out), "level_given_as_json_text": tl, "inside_outer_class_list_field": boxed}
         if out.kind == "steps" and d is not None:
